@@ -11,7 +11,7 @@ NEEDS = {
     "C05_Diffusion": ["Mdiff", "chain_diff"], "C05_Central": ["Mconv", "chain_conv"],
     "C05_Upwind": ["Mup", "chain_up"], "C05_UpwindAlt": ["Mupalt", "chain_upalt"],
     "C06_DiffConst": ["Mdiff"], "C06_CentralConst": ["Mconv", "divu"], "C06_UpwindConst": ["Mup", "divu"],
-    "C06_UpwindAltConst": ["Mupalt", "divu"], "C06_SourceDiag": ["Msrc"], "C06_SourceVec": ["Rsrc"],
+    "C06_UpwindAltConst": ["Mupalt", "divu"], "C06_SourceDiag": ["Msrc"], "C06_SourceVec": ["Rsrc"], "C06_SourceSolve": ["r_source"],
     "C01_ClosedDiffusion": ["Mdiff", "volume"], "C01_ClosedCentral": ["Mconv", "volume"],
     "C01_ClosedUpwind": ["Mup", "volume"], "C01_ClosedDivergence": ["divu", "volume"],
     "C03_Robin": ["ghost"], "C03_Periodic": ["ghost"], "C03_InteriorKept": ["ghost"],
